@@ -19,9 +19,14 @@ import pctrace  # noqa: E402
 LEAN_MODULES = _auto.lean_modules("C19")
 VARIANTS = ["release"]
 RULE = ("for each traced operation: public inputs and all lengths fixed, secrets in {random x2, all-zero, all-ones, single low bit, single high "
-        "bit}; comparisons: equal operands and a first mismatch at every position (thorough) / sampled positions (quick); the PC-sequence hash "
-        "of every secret must equal that of the first; non-trivial = a pair of distinct secrets on the same public input; distinct = distinct "
-        "(operation, public input, secret) triples")
+        "bit, bit 1, bit 3, half-zero words} (thorough: + 4 random, a middle bit); operations: x25519.dh for u in {9, random, 0, 1, p-1, a small-order u of "
+        "order 8} (thorough: + p, p+1, 2^255-1, 2^256-1), x25519.base, ed25519 keypair / sign / sign_ext, Poly1305 (tags, final reduction on explicit states), "
+        "HMAC-SHA256/512/SHA1/SHA3-256/BLAKE2b and keyed BLAKE2b (BLAKE2s: thorough) with key lengths below / at / above the block size, ChaCha20 and Salsa20 with "
+        "32- and 16-byte keys, ChaCha8, ChaCha12, XChaCha20, XSalsa20 (thorough: every variant x rounds x key length, ChaChaOriginal), AEAD decrypt "
+        "(ChaCha20-Poly1305: rejecting tags with the first mismatch at every one of the 16 positions plus all-zero / all-ones tags under one key; accepting "
+        "(key, tag) pairs over the key classes for 32- and 16-byte keys; thorough: rejecting key classes, several lengths); comparisons (MacResult ==, Tag ==): "
+        "equal operands and a first mismatch at EVERY position for n <= 32 in both tiers (thorough: also n = 64); the PC-sequence hash of every member must equal "
+        "that of the first; non-trivial = a pair of distinct secrets on the same public input; distinct = distinct (operation, public input, secret) triples")
 TRUSTED = ["valgrind 3.19 lackey instruction trace (= the instructions the optimised binary executes; cross-checked against a ptrace single-step "
            "trace in the thorough tier)", "rustc -O code generation is observed, not proved: the Lean leakage theorems speak about the models"]
 PROOF_SCOPE = 'partial by nature: the Lean leakage theorems speak about instrumented models (see the theorem list for which code they cover); the property itself — the instruction trace of the optimised binary — is observed with an instruction tracer on every listed operation'
@@ -45,13 +50,24 @@ def secrets(rng, n, tier):
     return s
 
 
+EXPECT_OUT = {}   # group label -> the (public) output every member must print; filled by plan()
+
+
 def plan(tier, rng):
     """list of (group_label, [ (args list) ... ]) — all members of a group must have identical traces"""
     H = cx.hx
     groups = []
+    EXPECT_OUT.clear()
     u9 = bytes([9]) + bytes(31)
-    for u in [u9, rng.rbytes(32)] + ([bytes(32), b"\xff" * 32] if tier == "thorough" else []):
-        groups.append((f"x25519.dh u={H(u)[:8]}", [["x25519.dh", H(u), H(s)] for s in secrets(rng, 32, tier)]))
+    P = 2**255 - 19
+    le = lambda v: (v % 2**256).to_bytes(32, "little")   # noqa: E731
+    small8 = 325606250916557431795983626356110631294008115727848805560023387167927233504   # u of a point of order 8
+    us = [("9", u9), ("random", rng.rbytes(32)), ("0", le(0)), ("1", le(1)), ("p-1", le(P - 1)), ("small-order-8", le(small8))]
+    if tier == "thorough":
+        us += [("p", le(P)), ("p+1", le(P + 1)), ("2^255-1", le(2**255 - 1)), ("2^256-1", b"\xff" * 32),
+               ("small-order-8b", le(39382357235489614581723060781553021112529911719440698176882885853963445705823))]
+    for name, u in us:
+        groups.append((f"x25519.dh u={name}", [["x25519.dh", H(u), H(s)] for s in secrets(rng, 32, tier)]))
     groups.append(("x25519.base", [["x25519.base", H(s)] for s in secrets(rng, 32, tier)]))
     groups.append(("ed25519.keypair", [["ed25519.keypair", H(s)] for s in secrets(rng, 32, tier)]))
     for mlen in ([0, 100] if tier == "quick" else [0, 1, 63, 64, 100, 200]):
@@ -81,6 +97,61 @@ def plan(tier, rng):
             ss = [s[:kl] for s in ss]
             if kl:
                 groups.append((f"{alg} keylen={kl}", [[alg, H(m), H(s)] for s in ss]))
+    more = [("hmac.sha1", [20, 65] if tier == "quick" else [1, 20, 63, 64, 65, 130]),
+            ("hmac.sha3_256", [32, 137] if tier == "quick" else [1, 32, 135, 136, 137, 300]),
+            ("hmac.blake2b", [64, 129] if tier == "quick" else [1, 64, 127, 128, 129, 300]),
+            ("blake2b.mac", [64] if tier == "quick" else [1, 32, 63, 64])]
+    if tier == "thorough":
+        more.append(("blake2s.mac", [1, 16, 32]))
+    for (alg, klens) in more:
+        for kl in klens:
+            m = rng.rbytes(50 if tier == "quick" else rng.choice([0, 50, 200]))
+            ss = [s[:kl] for s in secrets(rng, kl, tier)]
+            groups.append((f"{alg} keylen={kl}", [[alg, H(m), H(s)] for s in ss]))
+    # stream ciphers beyond ChaCha20 / Salsa20 with a 32-byte key: reduced rounds, 16-byte keys ("expand 16-byte k"), the
+    # extended-nonce variants (HChaCha / HSalsa key derivation runs on the secret key)
+    NL = {"chacha": 12, "xchacha": 24, "chachaorig": 8, "salsa": 8, "xsalsa": 24}
+    if tier == "quick":
+        combos = [("chacha", 8, 32), ("chacha", 12, 16), ("chacha", 20, 16), ("salsa", 20, 16), ("xchacha", 20, 32), ("xsalsa", 20, 32)]
+        dls = [100]
+    else:
+        combos = [(v, R, kl) for v in NL for R in (8, 12, 20) for kl in ((32,) if v[0] == "x" else (16, 32))
+                  if not (v in ("chacha", "salsa") and R == 20 and kl == 32)]
+        dls = [1, 64, 100, 300]
+    for ci, (v, R, kl) in enumerate(combos):
+        for dl in (dls if tier == "quick" else [dls[ci % len(dls)], dls[(ci + 1) % len(dls)]]):
+            nonce = rng.rbytes(NL[v])
+            members = [["stream.enc", v, str(R), H(nonce), str(dl), H(k), H(rng.rbytes(dl))] for k in secrets(rng, kl, tier)]
+            groups.append((f"stream.enc {v}{R} keylen={kl} len={dl}", members))
+    # AEAD decrypt: the verdict is public, everything before it is not.  (a) one key, REJECTING tags whose first mismatch
+    # with the right tag sits at every position (later bytes random), all-zero and all-ones tags; (b) ACCEPTING (key, tag)
+    # pairs over the key classes, 32- and 16-byte keys; thorough: (c) rejecting pairs over the key classes, more lengths
+    from gens import aead as _A
+    shapes = [(13, 70)] if tier == "quick" else [(13, 70), (0, 0), (16, 64), (1, 65)]
+    for (la, ld) in shapes:
+        nonce, aad, ct = rng.rbytes(12), rng.rbytes(la), rng.rbytes(ld)
+        pub = ["aead.decrypt", H(nonce), H(aad), H(ct)]
+        K = rng.rbytes(32)
+        T = _A.ref_tag(20, K, nonce, aad, ct)
+        members = []
+        for p in range(16):
+            o = bytearray(T)
+            o[p] ^= 1 << rng.randrange(8)
+            for q in range(p + 1, 16):
+                o[q] = rng.randrange(256) if rng.random() < 0.5 else o[q]
+            members.append(pub + [H(K), H(bytes(o))])
+        members += [pub + [H(K), H(t)] for t in (bytes(16), b"\xff" * 16) if t != T]
+        groups.append((f"aead.decrypt reject first-mismatch-position aad={la} ct={ld}", members))
+        EXPECT_OUT[groups[-1][0]] = "false"
+        for kl in (32, 16):
+            groups.append((f"aead.decrypt accept keylen={kl} aad={la} ct={ld}",
+                           [pub + [H(k), H(_A.ref_tag(20, k, nonce, aad, ct))] for k in secrets(rng, kl, tier)]))
+            EXPECT_OUT[groups[-1][0]] = "true"
+            if tier == "thorough":
+                wrong = rng.rbytes(16)
+                groups.append((f"aead.decrypt reject keylen={kl} aad={la} ct={ld}",
+                               [pub + [H(k), H(wrong)] for k in secrets(rng, kl, tier)]))
+                EXPECT_OUT[groups[-1][0]] = "false"
     for (op, nl) in (("chacha20.enc", 12), ("salsa20.enc", 8)):
         for dl in ([100] if tier == "quick" else [1, 64, 100, 300]):
             nonce = rng.rbytes(nl)
@@ -91,7 +162,7 @@ def plan(tier, rng):
     # comparisons: equal, and first mismatch at each position
     for (op, n) in (("macresult.eq", 32), ("tag.eq", 16), ("macresult.eq", 64 if tier == "thorough" else 20)):
         ref = rng.rbytes(n)
-        poss = range(n) if tier == "thorough" else sorted(set([0, 1, n // 2, n - 2, n - 1]))
+        poss = range(n) if (tier == "thorough" or n <= 32) else sorted(set([0, 1, n // 2, n - 2, n - 1]))
         members = [[op, H(ref), H(ref)]]
         for p in poss:
             o = bytearray(ref)
@@ -132,6 +203,12 @@ def extra_checks(tier, rng, variants, broken, failing):
         if "error" in r0:
             broken.append({"kind": "tracer", "theorem": None, "file": label, "message": r0["error"]})
             continue
+        want_out = EXPECT_OUT.get(label)
+        if want_out is not None:
+            for mi in range(len(ms)):
+                if "error" not in results[(gi, mi)] and results[(gi, mi)].get("out") != want_out:
+                    broken.append({"kind": "tracer", "theorem": None, "file": label,
+                                   "message": f"plan defect: member {mi} answers {results[(gi, mi)].get('out')!r}, the group is built to answer {want_out!r}"})
         for mi in range(1, len(ms)):
             r = results[(gi, mi)]
             nontriv += 1
